@@ -87,7 +87,24 @@ def _amount(a, funds):
         return funds + 1
     if a == 'exact':
         return funds
+    if isinstance(a, (tuple, list)):
+        return a[1]            # (form, smallest units): the amount is handed over as text or as a Value object
     return a
+
+
+def _amount_arg(a, amt):
+    """The object handed to the library for the first recipient's amount.  Text is written here from the integer with
+    exact decimal arithmetic ('0.29000000 TST'), never by the library."""
+    if not isinstance(a, (tuple, list)):
+        return amt
+    from decimal import Decimal
+    text = '%s TST' % (Decimal(amt) / Decimal(10 ** 8)).quantize(Decimal('0.00000001'))
+    if a[0] == 'str':
+        return text
+    if a[0] == 'str_short':
+        return '%s TST' % (Decimal(amt) / Decimal(10 ** 8)).normalize().to_eng_string() if amt % 10 ** 8 else text
+    from bitcoinlib.values import Value
+    return Value(text, network=wh.NET)
 
 
 def sub_req(case):
@@ -135,7 +152,9 @@ def sub_req(case):
         rnd = req.get('rnd') or {}
         t = None
         err = None
-        requested = list(outputs)
+        requested = list(outputs)          # integer amounts: what must be paid
+        if outputs and isinstance(req['amount'], (tuple, list)):
+            outputs[0] = (outputs[0][0], _amount_arg(req['amount'], amt))
         outputs_before = list(outputs)
         explicit_fee = isinstance(fee, int)
         with wh.ForcedRandom(rnd.get('randint'), rnd.get('dirichlet'), rnd.get('shuffle', 'identity')):
@@ -401,7 +420,10 @@ EXPLICIT = ('inputs_first', 'inputs_all', 'inputs_second', 'inputs_first_obj', '
 DEFAULT = {'method': 'send', 'amount': 2000, 'fee': None, 'nchange': 1, 'recips': 'ext', 'min_confirms': 1,
            'max_utxos': None}
 DIMS = {
-    'amount': [999, 1000, 1001, 5000, 99000, 'allbutfee', 'exact', 'toomuch', 10 ** 8 - 20000],
+    'amount': [999, 1000, 1001, 5000, 99000, 'allbutfee', 'exact', 'toomuch', 10 ** 8 - 20000,
+               # amounts given as text / Value objects, incl. decimals whose binary float quotient lies just below the integer
+               ('str', 2000), ('str', 3), ('str', 29000000), ('str_short', 57000000), ('value', 57000000), ('value', 29000000),
+               ('value', 5000), ('str', 99999999 - 30000)],
     'fee': ['low', 'high', 0, 500, 3000, 100000, 10 ** 6, 'gtfunds'],
     'nchange': [2, 3, 5, 0],
     'recips': ['own', 'ext+ext2', 'ext+own', 'ext+ext'],
